@@ -655,7 +655,7 @@ pub fn check_program(p: &Program) -> Report {
             ifaces.iter().map(|(k, v)| (k.clone(), v.0.iter().cloned().collect())).collect();
         let inherit_loop = nodes_on_cycles(&iface_edges);
         if !inherit_loop.is_empty() {
-            ck.v("R-INHERIT-LOOP", "E-INHERIT", "");
+            ck.v("R-INHERIT-LOOP", "E032", "");
         } else {
             for (name, (_bases, ops)) in &ifaces {
                 // all transitive bases
